@@ -190,7 +190,7 @@ Theorem C02_source_tie :
   list_eqb String.eqb gen_host_conn_calls deployed_host_conn_calls = true /\
   (gen_lock_violations = [] /\
    list_eqb String.eqb gen_locked_methods expected_locked_methods = true) /\
-  src_diff gen_route_src frozen_route_src = [].
+  RouteGen.src_diff gen_route_src frozen_route_src = [].
 Proof.
   exact (conj gen_rejected_steps_eq (conj gen_suffixes_eq (conj gen_dial_steps_deployed
           (conj gen_reject_before_dial (conj gen_host_conn_calls_deployed
